@@ -309,6 +309,9 @@ func (c17) Exec(c *core.Case) (out *core.Outcome) {
 		if a := e.S.Aborted(); a != "" {
 			return inconclusive(c, "%s", a)
 		}
+		if mapRaceViolations(o, e.S, "C17", "concurrent account traffic") {
+			return o
+		}
 	}
 	if len(e.Panics) > 0 {
 		return inconclusive(c, "gateway panic: %s", e.Panics[0].Value)
